@@ -205,7 +205,7 @@ def _real_roundtrip(groups, subjects, metrics, cells, scale=None):
         c = cells["%d,%d,%d" % (s, g, m)]
         if c["kind"] == "finite":
             v = fl(c["value"])
-            return v * scale if scale else v
+            return (v if v != 0 else 0.5) * scale if scale else v
         return {"nan": float("nan"), "inf": float("inf"), "missing": None}[c["kind"]]
 
     class Res:
